@@ -161,7 +161,8 @@ def predBegin (nd : Nat) (pre post : St) (spre spost : String) : String :=
   | none =>
     match ds.find? (fun d => lt (pre.supIdx d) (post.supIdx d)) with
     | some d =>
-      let tag := if pre.reserves d > pre.cash d + pre.borrowed d then "reserves-exceed-cash-plus-borrows" else "other"
+      let tag := if pre.reserves d > pre.cash d + pre.borrowed d then "reserves-exceed-cash-plus-borrows"
+        else if lt (some 0) (pre.supIdx d) then "index-already-negative" else "other"
       predfail "C08_supply_index_monotone" s!"{tag} denom={d} pre={showOpt (pre.supIdx d)} post={showOpt (post.supIdx d)}"
     | none =>
       match spre.splitOn "|", spost.splitOn "|" with
